@@ -2,7 +2,7 @@
    Model: theories/Buffer.v (b_eq, b_hash_key, dict_get/dict_set: CPython dict lookup by hash then ==).
    Only statements; proofs in theories/BufferSpec.v. *)
 From Coq Require Import ZArith List Bool.
-From MS Require Import PyBase Buffer Bits ByteFacts BufferAbs BufferSpec Schc.
+From MS Require Import PyBase Buffer Bits ByteFacts BufferAbs BufferSpec Schc BufferHeap BufferHeapSpec BufferHeapBits.
 Import ListNotations.
 Open Scope Z_scope.
 
@@ -28,8 +28,18 @@ Example c13_ex :
   dict_get [(mkbuf [128] 1 RIGHT 7, 5)] (mkbuf [1] 1 LEFT 7) = Ok (Some 5).
 Proof. vm_compute. repeat split; reflexivity. Qed.
 
+(* the same on Buffer OBJECTS (heap model BufferHeap.v): == and hash() of objects in any heap, the two possibly the same object; no object is changed by comparing or hashing *)
+Theorem c13_eq_objects a b h ab bb : nth_error h a = Some ab -> nth_error h b = Some bb -> canon ab -> canon bb ->
+  fst (h_eq a b h) = Ok (bits_eqb (abs ab) (abs bb)) /\ extends h (snd (h_eq a b h)).
+Proof. exact (obj_eq a b h ab bb). Qed.
+Theorem c13_hash_objects a b h ab bb : nth_error h a = Some ab -> nth_error h b = Some bb -> canon ab -> canon bb -> abs ab = abs bb ->
+  exists k, fst (h_hash_key a h) = Ok k /\ fst (h_hash_key b h) = Ok k /\
+            extends h (snd (h_hash_key a h)) /\ extends h (snd (h_hash_key b h)).
+Proof. exact (obj_hash a b h ab bb). Qed.
 Print Assumptions c13_eq.
 Print Assumptions c13_eqb_iff.
 Print Assumptions c13_hash.
 Print Assumptions c13_dict_get.
 Print Assumptions c13_dict_set.
+Print Assumptions c13_eq_objects.
+Print Assumptions c13_hash_objects.
